@@ -1,13 +1,13 @@
 """C11 - Volume-aware simulation scales rates with volume and tracks growth and division."""
 import os
-CONTRACT_MODULES = ['simulator_volume', 'simulator_ssa', 'random_', 'simulator_interfaces', 'types_propensities', 'types_volume', 'types_model_shapes', 'types_terms']
+CONTRACT_MODULES = ['simulator_volume', 'simulator_delayvolume', 'simulator_delay', 'simulator_queue', 'simulator_ssa', 'random_', 'simulator_interfaces', 'types_propensities', 'types_volume', 'types_model_shapes', 'types_terms']
 SPEC_MODULES = ['functions', 'lemmas_prob']
 LEVEL = 'proof'
 ASSUMPTIONS = [
     'constant-volume law: the step relation with the volume-scaled propensities (C01 VOL/STOVOL closed forms) is that of the SSA; per-step laws -> distribution is cited (as C05)',
     '0.69314718056 is taken as ln 2',
     'the bracket "within one time step of the growth law" follows from one volume step per delta (clause delta-clock-advances-only-when-it-fires) and the step-law lemmas by induction over steps (argument)',
-    'DelayVolumeSSASimulator is not under contract (see C07)',
+    'DelayVolumeSSASimulator is under contract too (volume step exactly when the delta clock fires)',
 ]
 TRUSTED = []
 EXPLANATION = ('R_vol verified on the real VolumeSSASimulator loop body (volume rules first, volume-scaled propensities, delta clock, volume step exactly when the clock fires, '
